@@ -68,13 +68,22 @@ class World:
         order = {nd.name: i for i, nd in enumerate(model._sorted_nodes)}
         rec["topo_ok"] = all(order[i.name] < order[nd.name] for nd in model.nodes.values()
                              for i in nd.all_input_nodes())
-        rec["outputs_inverse_ok"] = all(
-            (nd in i.outputs) for nd in model.nodes.values() for i in nd.all_input_nodes()) and all(
-            (nd in o.all_input_nodes()) for nd in model.nodes.values() for o in nd.outputs)
+        def outs(nd):
+            # `outputs` refuses to answer for a node that does not know its model
+            try:
+                return nd.outputs
+            except RuntimeError:
+                return None
+
+        every = list(model.nodes.values()) + [i for nd in model.nodes.values() for i in nd.all_input_nodes()]
+        rec["members_ok"] = all(nd.model is model for nd in every)
+        rec["outputs_inverse_ok"] = all(outs(nd) is not None for nd in every) and all(
+            (nd in outs(i)) for nd in model.nodes.values() for i in nd.all_input_nodes()) and all(
+            (nd in o.all_input_nodes()) for nd in model.nodes.values() for o in outs(nd))
         rec["closed"] = all(i.name in model.nodes and model.nodes[i.name] is i
                             for nd in model.nodes.values() for i in nd.all_input_nodes())
         rec["full"] = json.dumps({n: [type(nd).__name__, sorted(i.name for i in nd.all_input_nodes()),
-                                      sorted(o.name for o in nd.outputs),
+                                      None if outs(nd) is None else sorted(o.name for o in outs(nd)),
                                       None if nd.value is None else [float(x) for x in jnp.ravel(jnp.asarray(nd.value, jnp.float32))],
                                       bool(nd.outdated)] for n, nd in sorted(model.nodes.items())}, sort_keys=True)
         return rec
